@@ -776,6 +776,18 @@ class Gen:
             s = self.objseq(v, [], 1)
             js, o = self.q.var("js"), self.q.var("j")
             self.q.ops += 3
+            if self.r.random() < 0.3:
+                # a collection bound ONCE by a directly applied lambda and used first inside the loop over another collection,
+                # then after that loop: what the later use reads must have been retrieved in THIS event even when the loop
+                # body never ran (an empty outer collection)
+                c2, _ = self.coll(v)
+                t, o2, x, y = self.q.var("t"), self.q.var("j"), self.q.var("x"), self.q.var("y")
+                m = self.r.choice(self.u.dbl_methods)
+                inner = f"{t}.Where(lambda {x}: {x}.{m}() > {o2}.{m}()).Count()"
+                cols = [f"{s}.Select(lambda {o2}: {inner})", self.r.choice([f"{t}.Count()", f"{t}.Select(lambda {y}: {y}.{m}())"])]
+                self.q.feat.add("applied_lambda_shared_collection")
+                src += f".Select(lambda {v}: (lambda {t}: ({cols[0]}, {cols[1]}))({c2}))"
+                return src, self.q
             if self.r.random() < 0.5:
                 # the sequence bound to a parameter is both the row loop and the source of an event-level column
                 m = self.r.choice(self.u.dbl_methods)
